@@ -18,7 +18,8 @@ from sim.streams import ReadintoSource, SimSource
 PHASES = ('before', 'after', 'post_process', 'region_complete')
 EXCS = ('RuntimeError', 'ValueError', 'struct.error', 'ImageFormatError',
         'KeyError', 'Injected', 'MemoryError', 'UnicodeDecodeError',
-        'EmptyMessage', 'MultiLine', 'StrRaises', 'EmptyImageFormatError')
+        'EmptyMessage', 'MultiLine', 'StrRaises', 'EmptyImageFormatError',
+        'Falsy')
 SRC_EXCS = ('OSError', 'ConnectionResetError', 'SimSourceError')
 
 
@@ -35,8 +36,17 @@ class StrRaises(Exception):
     __repr__ = __str__
 
 
+class FalsyFault(Exception):
+    """An aggregate-style error without sub-errors: bool(exc) is False."""
+
+    def __len__(self):
+        return 0
+
+
 def make_exc(kind):
     m = imgsim.fi()
+    if kind == 'Falsy':
+        return FalsyFault('injected fault')
     if kind == 'UnicodeDecodeError':
         return UnicodeDecodeError('ascii', b'\xff', 0, 1, 'injected')
     if kind == 'EmptyMessage':
